@@ -27,6 +27,7 @@ def run(res, tier, seed, replay):
                    ("dense", 255, "sync", "debug", 800 * n), ("dense", 255, "sync", "release", 700 * n),
                    ("small", 255, "yield", "debug", 400 * n), ("greedy", 25, "sync", "debug", 300 * n),
                    ("conflictx", 255, "sync", "debug", 2000 * n), ("conflictx", 255, "sync", "release", 1500 * n),
+                   ("conflictc", 255, "sync", "debug", 500 * n),
                    ("softdeep", 255, "sync", "debug", 500 * n), ("softrej", 255, "sync", "debug", 800 * n),
                    ("softrej", 255, "sync", "release", 400 * n)]
         r2, hangs = ss.run_streams(streams, seed + 41, render=True)
